@@ -14,16 +14,31 @@ from harness.props import c02
 ID = "C05"
 DESIGN_REF = "6/C05"
 LEAN_MODULES = ["Clikit.Props.C05"]
-REQUIRED_THEOREMS = []
+REQUIRED_THEOREMS = ["Clikit.Props.C05.parseFrom_fresh", "Clikit.Props.C05.parseFrom_result",
+                     "Clikit.Props.C05.history_independent", "Clikit.Props.C05.leak_without_reset"]
 TECHNIQUE = ("Lean 4 theorem: the parser model started from ANY previous scratch state equals the fresh parse, lifted "
              "to all histories by induction + differential histories on one real parser object, with mutation snapshots")
-LEVEL_TEXT = ""
-LEVEL_NOTE = ""
+LEVEL_TEXT = ("history_independent is proved for ALL request sequences and all initial scratch states of the parser object: "
+              "each request on a re-used parser equals the fresh parse. Which scratch dictionaries parse() re-initialises is "
+              "regenerated from the source on every run (a removed reset breaks the proof; a new self attribute breaks the "
+              "translator), the rest of the parser model is hand-written and tied to the code by differential histories on "
+              "one real DefaultArgsParser (also through Config.set_args_parser/Command.parse).")
+LEVEL_NOTE = ("Trusted: Lean kernel + standard axioms, tools/genparts/c05.py, the hand-written parser model (validated by "
+              "the correspondence), harness. Checked, not proved: that ArgvArgs/parse do not mutate the argv list, the raw "
+              "args or the format (before/after snapshots; object mutation has no counterpart in a functional model).")
 RULE = ("histories of 1-6 requests from a pool (C02 catalogue formats x adversarial tokens, C01 well-formed lines on "
         "generated formats), exhaustive over a 10-request pool for length <= 2 (quick) / 3 (thorough), random beyond; "
         "non-trivial = length >= 2 with an option set or an error in an earlier request; distinct = the history")
-TRUSTED_BASE = []
-ASSUMPTIONS = []
+TRUSTED_BASE = [
+    "Lean 4.33 kernel; axioms within propext, Classical.choice, Quot.sound (audited per theorem on every run)",
+    "tools/genparts/c05.py: reads which scratch dictionaries DefaultArgsParser.parse re-initialises, and that the class keeps no other state",
+    "lean/Clikit/Model/Parser.lean: hand-written model of the parser (modelled, not verified; tied by the correspondence runs of C01/C02/C05)",
+    "harness/props/c05.py, harness/parser_common.py: generators, snapshots, canonical encoding; int()/float() tables taken from CPython",
+]
+ASSUMPTIONS = [
+    "non-mutation of argv / RawArgs.tokens / format listings is checked by snapshots on every generated request, not proved",
+    "float()/int() of CPython are parameters of the model (conversion tables computed by the running interpreter)",
+]
 BATCH = 1000
 
 POOL_TOKENS = [["--foo", "x"], ["y"], ["--bar=v", "a"], ["-f"], ["--unknown"], ["a", "b", "c", "d"],
